@@ -28,8 +28,8 @@ def run(chk):
         force_far = icore % 5 == 4
         if force_far:
             kind, V = gen.convex_set(rng, kinds=("ellipsoid",))
-        elif rng.random() < 0.34:      # any size: exact rescaling by a power of two between 2^-34 (6e-11) and 2^10
-            V = V * 2.0 ** int(rng.integers(-34, 11)); kind += "*2^k"
+        elif rng.random() < 0.34 or icore % 5 == 2:      # any size: exact rescaling by a power of two between 2^-34 (6e-11) and 2^10
+            V = V * 2.0 ** int(rng.integers(-34, 11) if icore % 5 != 2 else rng.integers(-34, -28)); kind += "*2^k"      # (the small end does not depend on the draw)
         if force_far:
             # far from the origin compared with its size (2^12 .. 2^18 diameters, exactly representable): edge lengths and angles are
             # differences / directions and keep their digits there
